@@ -131,7 +131,7 @@ Section plain_run.
         by (try assumption; lia).
       cbn [recs]. assert (EL : (gd <=? d) = false) by (apply N.leb_gt; exact Hin). rewrite EL.
       fold Rk.
-      destruct ((thr <? t1 - t0) || negb (is_nil Rk)) eqn:Dec.
+      destruct ((thr <=? t1 - t0) || negb (is_nil Rk)) eqn:Dec.
       + eexists. split; [reflexivity|].
         unfold after. cbn [fc enabled cached ridx stack out is_nil].
         repeat split; try assumption; try congruence.
@@ -156,7 +156,7 @@ Proof.
   cbn [recs history]. cbn [height] in Hh. fold (heights kids) in Hh.
   assert (E : (gd <=? d) = false) by (apply N.leb_gt; lia). rewrite E.
   destruct Hp as [Hlt Hk].
-  assert (E2 : (0 <? t1 - t0) = true) by (apply N.ltb_lt; lia). rewrite E2. cbn [orb].
+  assert (E2 : (0 <=? t1 - t0) = true) by (apply N.leb_le; lia). rewrite E2. cbn [orb].
   f_equal. f_equal.
   revert Hk Hh. induction IH as [|k r Hk' _ IHr]; intros Hk Hh; cbn [flat_map]; [reflexivity|].
   destruct Hk as [Pk Pr]. cbn [heights fold_right] in Hh. fold (heights r) in Hh.
@@ -218,7 +218,7 @@ Proof.
   assert (K : forall d', scan d' (flat_map (recs thr gd d') kids) = Some d').
   { intro d'. induction IH as [|k r Hk _ IHr]; [reflexivity|]. cbn [flat_map].
     rewrite (scan_app d' _ _ d') by apply Hk. exact IHr. }
-  destruct ((thr <? t1 - t0) || negb (is_nil (flat_map (recs thr gd (d + 1)) kids))); [|reflexivity].
+  destruct ((thr <=? t1 - t0) || negb (is_nil (flat_map (recs thr gd (d + 1)) kids))); [|reflexivity].
   cbn [scan r_type r_depth]. rewrite N.eqb_refl.
   rewrite (scan_app (d + 1) _ _ (d + 1)) by apply K.
   cbn [scan r_type r_depth].
